@@ -29,6 +29,7 @@ type TypeResult struct {
 	Enc      []*PathLayout // success paths
 	Dec      []*PathLayout
 	Pruned   int // success paths dropped under the registry start-up assumption
+	EncUnregistered []*PathLayout // … their layouts (the computed length is judged on them as well)
 }
 
 // Analysis holds everything the rules share.
@@ -270,6 +271,8 @@ func (a *Analysis) Result(ct *CodecType) *TypeResult {
 		}
 		if name, miss := a.registryMiss(p); miss && a.RegistryStartup && a.U.ServiceByName(name) != nil {
 			r.Pruned++
+			// (kept aside: what a frame does with its computed length must not depend on what the registry holds)
+			r.EncUnregistered = append(r.EncUnregistered, a.encLayout(ct, p))
 			continue
 		}
 		r.Enc = append(r.Enc, a.encLayout(ct, p))
